@@ -41,7 +41,9 @@ def gen(rnd):
     if coincident:
         # a source exactly at a station (a shot fired at a receiver): distance 0 for that datum
         x[0:per - 1] = [rx[0]] + ([ry[0]] if three else []) + [rz[0]]
-    return {"coincident": coincident, "ne": ne, "ns": ns, "three": three, "rx": rx, "ry": ry, "rz": rz, "infer": infer, "v": v, "obs": obs, "sd_scalar": sd_scalar, "s0": s0,
+    # the constructors also take data / per-datum sigmas laid out (stations, events) and transpose them
+    layout = rnd.choice(["event_major", "event_major", "data_station_major", "sigma_station_major", "both_station_major"]) if ne != ns else "event_major"
+    return {"layout": layout, "coincident": coincident, "ne": ne, "ns": ns, "three": three, "rx": rx, "ry": ry, "rz": rz, "infer": infer, "v": v, "obs": obs, "sd_scalar": sd_scalar, "s0": s0,
             "sds": sds, "x": x, "pattern": pattern}
 
 
@@ -50,8 +52,14 @@ def build(c, D, three=None, obs=None):
     obs = c["obs"] if obs is None else obs
     args = [numpy.array([c["rx"]]), numpy.array([c["rz"]])] if not three else [numpy.array([c["rx"]]), numpy.array([c["ry"]]), numpy.array([c["rz"]])]
     cls = D.SourceLocation3D if three else D.SourceLocation2D
-    return cls(*args, numpy.array(obs, dtype=float), float(c["s0"]) if c["sd_scalar"] else numpy.array(c["sds"]), infer_velocity=c["infer"],
-               medium_velocity=None if c["infer"] else c["v"])
+    lay = c.get("layout", "event_major")
+    obs_a = numpy.array(obs, dtype=float)
+    sds_a = float(c["s0"]) if c["sd_scalar"] else numpy.array(c["sds"], dtype=float)
+    if lay in ("data_station_major", "both_station_major"):
+        obs_a = numpy.ascontiguousarray(obs_a.T)
+    if lay in ("sigma_station_major", "both_station_major") and not c["sd_scalar"]:
+        sds_a = numpy.ascontiguousarray(sds_a.T)
+    return cls(*args, obs_a, sds_a, infer_velocity=c["infer"], medium_velocity=None if c["infer"] else c["v"])
 
 
 def terms(c, x):
@@ -73,13 +81,13 @@ def run(tier, seed):
     rnd = random.Random(seed * 7919 + 17)
     n = 90 if tier == "quick" else 1200
     goals, owners, metas, violations, samples, seen = [], [], [], [], [], set()
-    dist = {"2d": 0, "3d": 0, "infer_velocity": 0, "with_missing": 0, "scalar_sigma": 0, "truth_cases": 0, "y0_cases": 0, "source_at_station": 0}
+    dist = {"2d": 0, "3d": 0, "infer_velocity": 0, "with_missing": 0, "scalar_sigma": 0, "truth_cases": 0, "y0_cases": 0, "source_at_station": 0, "station_major_input": 0}
     for i in range(n):
         c = gen(rnd)
         obj = build(c, D)
         x = c["x"]
         xa = numpy.array(x, dtype=float).reshape(-1, 1)
-        desc = f"SourceLocation{'3D' if c['three'] else '2D'}(events={c['ne']}, stations={c['ns']}, infer_velocity={c['infer']}, missing={c['pattern']}, sigma={'scalar' if c['sd_scalar'] else 'array'})"
+        desc = f"SourceLocation{'3D' if c['three'] else '2D'}(events={c['ne']}, stations={c['ns']}, infer_velocity={c['infer']}, missing={c['pattern']}, sigma={'scalar' if c['sd_scalar'] else 'array'}, layout={c.get('layout')})"
         with numpy.errstate(all="ignore"):
             distgen_disturb(rnd, obj, xa)
             mis = float(obj.misfit(xa.copy()))
@@ -90,6 +98,7 @@ def run(tier, seed):
         dist["with_missing"] += int(c["pattern"] != "none")
         dist["scalar_sigma"] += int(c["sd_scalar"])
         dist["source_at_station"] += int(c["coincident"])
+        dist["station_major_input"] += int(c.get("layout") != "event_major")
         if numpy.asarray(obj.gradient(xa.copy())).shape != (len(x), 1):
             violations.append(Violation("gradient-shape", f"{desc}: gradient shape {numpy.asarray(obj.gradient(xa.copy())).shape}", {"case": c}))
         if math.isfinite(mis) and not all(math.isfinite(g) for g in grad):
